@@ -32,3 +32,16 @@ package loop
 //@   mapupdate Inductions assert [C12.gate] [C03.iv] forall j in 0..len(predsOf(phi)) :: phi.Edges[j] == iface(binOp, "*ssa.BinOp") || phi.Edges[j] == startVal
 //@   loop 2 invariant [C12.gate] [C03.iv] 0 <= #i && #i <= len(predsOf(phi)) && forall j in 0..#i :: phi.Edges[j] == iface(binOp, "*ssa.BinOp") || phi.Edges[j] == startVal
 //@   loop 2 invariant [C12.gate] [C03.iv] startVal == nil ==> forall j in 0..#i :: phi.Edges[j] == iface(binOp, "*ssa.BinOp")
+
+// ---- C01: loop detection does not leak map iteration order into its result
+//@ func DetectLoops
+//@   noframe
+//@   protocol-only C01
+//@   deterministic C01
+//@   uses ssaidx
+//@ func DetectLoops$1
+//@   requires 0 <= i && i < len(*headers) && 0 <= j && j < len(*headers)
+//@   ensures result == ((*headers)[i].Index < (*headers)[j].Index)
+//@ func DetectLoops$2
+//@   requires 0 <= i && i < len((*loop).Exits) && 0 <= j && j < len((*loop).Exits)
+//@   ensures result == ((*loop).Exits[i].Index < (*loop).Exits[j].Index)
